@@ -418,12 +418,17 @@ def run_target(target, repo=None, timeout_ms=QUICK_TIMEOUT_MS, tier='quick'):
             res['paths'] += 1
         except PathEnd:
             res['paths'] += 1
+            if getattr(target, 'path_end', None) is not None:
+                # a path that stops inside the function (end of an invariant-checked loop body)
+                target.path_end(ip, ctx)
         except Infeasible:
             res['dead_paths'] += 1
         except Unsupported as u:
             res['undecided'].append('unsupported construct: %s' % u)
         except RecursionError:
             res['undecided'].append('recursion limit in interpreter')
+        if getattr(target, 'keep', None) is not None:
+            ip.obligations[:] = [ob for ob in ip.obligations if target.keep(ob['name'])]
         work.extend(ip.new_forks)
         res['flags'] |= ip.flags
         res['lib_pure'] |= ip.lib_pure
@@ -453,9 +458,56 @@ def discharge(ob, timeout_ms, target, ctx):
     r0 = s.check()
     out['pc_sat'] = str(r0)
     s.add(z3.Not(ob['goal']))
-    # first a short z3 attempt, then cvc5 on the dumped SMT-LIB, then z3 with the full budget
-    s.set('timeout', max(1000, int(timeout_ms * 0.3)))
-    r = s.check()
+    # nonlinear obligations: first the EUF abstraction (its `unsat` is a proof), then a short z3
+    # attempt, explicit model search, cvc5 on the dumped SMT-LIB, z3 with the full budget
+    r = z3.unknown
+    ra = _euf_abstraction(s, timeout_ms)
+    if ra is not None:
+        r, how = ra
+        out['backend'] = how
+        if r == z3.sat:
+            out['_model_obj'] = _euf_abstraction.last_model
+    if r == z3.unknown:
+        s.set('timeout', max(1000, int(timeout_ms * 0.3)))
+        r = s.check()
+    if r == z3.unknown or r == 'unknown':
+        for variant in range(3):
+            g = _ground_search(list(s.assertions()), variant=variant)
+            if g is not None:
+                r = 'sat'
+                out['backend'] = 'explicit model search (every assertion evaluates to True under the assignment)'
+                out['_explicit'] = g
+                break
+    if r == z3.unknown or r == 'unknown':
+        # counter-model SEARCH under simplifying extra constraints (e.g. dt = 1): a model found
+        # this way is still a genuine counterexample of the original obligation; nothing is
+        # ever reported as proved on the strength of these constraints.
+        for hint in _search_hints(s):
+            sh = z3.Solver()            # a fresh solver: one that timed out may stay 'canceled'
+            sh.set('timeout', max(2000, timeout_ms // 2))
+            for a in s.assertions():
+                sh.add(a)
+            if isinstance(hint, list):
+                # greedy pinning: keep each equation unless it contradicts what is already fixed
+                sh.set('timeout', 700)
+                kept = []
+                for eqn in hint:
+                    sh.push()
+                    sh.add(eqn)
+                    if sh.check() == z3.unsat:
+                        sh.pop()
+                    else:
+                        kept.append(eqn)
+                hint = z3.And(kept) if kept else z3.BoolVal(True)
+                sh.set('timeout', max(2000, timeout_ms // 2))
+            else:
+                sh.add(hint)
+            rr = sh.check()
+            if rr == z3.sat:
+                r = z3.sat
+                out['backend'] = 'z3 (counter-model search with %s)' % str(hint).replace('\n', ' ')[:160]
+                out['_model_obj'] = sh.model()
+                break
     if r == z3.unknown:
         r2 = _cvc5(s, timeout_ms)
         if r2 is not None:
@@ -479,23 +531,6 @@ def discharge(ob, timeout_ms, target, ctx):
         if r3 is not None:
             out['backend'] = 'z3-4.8.12-cli'
             r = r3
-    if r == z3.unknown or r == 'unknown':
-        # counter-model SEARCH under simplifying extra constraints (e.g. dt = 1): a model found
-        # this way is still a genuine counterexample of the original obligation; nothing is
-        # ever reported as proved on the strength of these constraints.
-        for hint in _search_hints(s):
-            s.push()
-            s.add(hint)
-            s.set('timeout', max(2000, timeout_ms // 2))
-            rr = s.check()
-            if rr == z3.sat:
-                r = z3.sat
-                out['backend'] = 'z3 (counter-model search with %s)' % hint
-                m_ = s.model()
-                out['_model_obj'] = m_
-                s.pop()
-                break
-            s.pop()
     if r == z3.unsat or r == 'unsat':
         out['result'] = 'discharged'
     elif r == z3.sat:
@@ -505,12 +540,171 @@ def discharge(ob, timeout_ms, target, ctx):
         out['model_full'] = {str(d): str(m[d]) for d in m.decls()[:40]}
     elif r == 'sat':
         out['result'] = 'refuted'
+        g = out.pop('_explicit', None)
         out['model'] = None
+        if g is not None:
+            out['model_full'] = dict(list(g.items())[:60])
+            out['model'] = {k: g.get(str(v)) if is_z3(v) else (v if isinstance(v, (str, int, bool)) or v is None else str(v))
+                            for k, v in (ctx.get('inputs') or {}).items()}
     else:
         out['result'] = 'unknown'
         out['reason'] = s.reason_unknown() if r == z3.unknown else str(r)
     out['seconds'] = round(time.time() - t0, 3)
     return out
+
+
+def _abstract_nl(e, cache):
+    """replace products of two non-numeral reals, divisions by non-numerals and powers by
+    applications of uninterpreted functions (products with sorted arguments)"""
+    k = e.get_id()
+    if k in cache:
+        return cache[k]
+    if z3.is_quantifier(e) or not z3.is_app(e):
+        cache[k] = e
+        return e
+    ch = [_abstract_nl(c, cache) for c in e.children()]
+    kind = e.decl().kind()
+    R = z3.RealSort()
+    res = None
+    if kind == z3.Z3_OP_MUL and (z3.is_real(e) or z3.is_int(e)):
+        nums = [c for c in ch if z3.is_rational_value(c) or z3.is_int_value(c)]
+        rest = [c for c in ch if not (z3.is_rational_value(c) or z3.is_int_value(c))]
+        if len(rest) >= 2:
+            rest = sorted(rest, key=lambda c: c.get_id())
+            srt = e.sort()
+            f = z3.Function('nl_mul_%s' % srt, srt, srt, srt)
+            acc = rest[0]
+            for c in rest[1:]:
+                acc = f(acc, c)
+            for c in nums:
+                acc = c * acc
+            res = acc
+    elif kind in (z3.Z3_OP_DIV, z3.Z3_OP_IDIV) and not (z3.is_rational_value(ch[1]) or z3.is_int_value(ch[1])):
+        srt = e.sort()
+        res = z3.Function('nl_div_%s' % srt, srt, srt, srt)(ch[0], ch[1])
+    elif kind == z3.Z3_OP_POWER:
+        srt = e.sort()
+        res = z3.Function('nl_pow_%s' % srt, ch[0].sort(), ch[1].sort(), srt)(ch[0], ch[1])
+    if res is None:
+        res = e.decl()(*ch) if ch else e
+    cache[k] = res
+    return res
+
+
+def _euf_abstraction(solver, timeout_ms):
+    """nonlinear real arithmetic abstracted to uninterpreted functions (EUF + linear arithmetic):
+    `unsat` of the abstraction is a proof of the original (every real model is a model of the
+    abstraction); a `sat` model is only used when it VALIDATES against the original assertions."""
+    try:
+        cache = {}
+        orig = list(solver.assertions())
+        abst = [_abstract_nl(a, cache) for a in orig]
+        if all(a.get_id() == b.get_id() for a, b in zip(orig, abst)):
+            return None
+        s2 = z3.Solver()
+        s2.set('timeout', max(2000, timeout_ms // 2))
+        for a in abst:
+            s2.add(a)
+        r = s2.check()
+        if r == z3.unsat:
+            return z3.unsat, 'z3 (nonlinear terms abstracted to uninterpreted functions: unsat)'
+        if r == z3.sat:
+            m = s2.model()
+            if all(z3.is_true(m.eval(a, model_completion=True)) for a in orig):
+                _euf_abstraction.last_model = m
+                return z3.sat, 'z3 (counter-model found in the EUF abstraction, validated against the original obligation)'
+    except Exception:
+        pass
+    return None
+
+
+_euf_abstraction.last_model = None
+
+
+def _ground_search(assertions, budget_s=20.0, variant=0):
+    """explicit counter-model search for quantifier-free formulas over reals + uninterpreted
+    functions: real constants and then (innermost first) uninterpreted applications with numeral
+    arguments are replaced by concrete rationals; a choice is withdrawn when an assertion
+    simplifies to False.  Success = every assertion simplifies to True, i.e. the assignment IS a
+    model (free functions may be interpreted at will), checked by evaluation, not by a solver."""
+    t0 = time.time()
+    A = [z3.simplify(a) for a in assertions]
+    for a in A:
+        st, seen = [a], set()
+        while st:
+            e = st.pop()
+            if e.get_id() in seen:
+                continue
+            seen.add(e.get_id())
+            if z3.is_quantifier(e) or (z3.is_app(e) and e.decl().kind() in (z3.Z3_OP_SELECT, z3.Z3_OP_STORE)):
+                return None
+            st.extend(e.children())
+    assign = {}
+    counter = [variant * 5]
+
+    def is_num(e):
+        return z3.is_rational_value(e) or z3.is_int_value(e) or z3.is_true(e) or z3.is_false(e) or z3.is_algebraic_value(e)
+
+    def candidates(e):
+        counter[0] += 1
+        k = counter[0]
+        if z3.is_bool(e):
+            return [z3.BoolVal(True), z3.BoolVal(False)]
+        if z3.is_int(e):
+            return [z3.IntVal(v) for v in (k % 5 + 1, 0, 1, 2, -1, k + 3)]
+        if z3.is_real(e):
+            base = z3.RealVal(2 * k + 3) / 7
+            return [z3.simplify(v) for v in (base, z3.RealVal(7) / (2 * k + 3), -base, z3.RealVal(0), z3.RealVal(1), base + 40)]
+        return None
+
+    def pick(A):
+        """next term to fix: a real/int/bool constant, else an uninterpreted application whose arguments are all numerals"""
+        best = None
+        seen = set()
+        st = list(A)
+        while st:
+            e = st.pop()
+            if e.get_id() in seen:
+                continue
+            seen.add(e.get_id())
+            if z3.is_app(e) and e.decl().kind() == z3.Z3_OP_UNINTERPRETED and (z3.is_real(e) or z3.is_int(e) or z3.is_bool(e)):
+                if e.num_args() == 0:
+                    return e
+                if best is None and all(is_num(c) for c in e.children()):
+                    best = e
+            st.extend(e.children())
+        return best
+
+    while True:
+        if time.time() - t0 > budget_s:
+            return None
+        if any(z3.is_false(a) for a in A):
+            return None
+        if all(z3.is_true(a) for a in A):
+            return assign
+        e = pick(A)
+        if e is None:
+            # nothing numeric left to fix: the residual (terms over opaque sorts) goes to the solver
+            sr = z3.Solver()
+            sr.set('timeout', 3000)
+            for a in A:
+                sr.add(a)
+            if sr.check() == z3.sat:
+                assign['<residual over opaque sorts>'] = 'sat (z3)'
+                return assign
+            return None
+        cands = candidates(e)
+        if cands is None:
+            return None
+        done = False
+        for v in cands:
+            B = [z3.simplify(z3.substitute(a, (e, v))) for a in A]
+            if not any(z3.is_false(b) for b in B):
+                A, done = B, True
+                assign[str(e)] = str(v)
+                break
+        if not done:
+            return None
 
 
 def _model_inputs(m, ctx):
@@ -565,6 +759,13 @@ def _search_hints(solver):
     if dts:
         hints.append(z3.And([v == 1 for v in dts]))
         hints.append(z3.And([v == z3.RealVal('1/4') for v in dts]))
+    if names and len(names) <= 24:
+        # ground instances: every real constant pinned to a small number (changed copies to another one)
+        ks = sorted(names)
+        second = lambda k: k.endswith('_changed') or k.endswith('_first')
+        hints.append([names[k] == (2 if second(k) else 1) for k in ks])
+        hints.append([names[k] == i + 1 for i, k in enumerate(ks)])
+        hints.append([names[k] == z3.RealVal(i + 2) / 2 for i, k in enumerate(reversed(ks))])
     return hints
 
 
